@@ -4,6 +4,34 @@
 open Rlmodel_core
 open Conv
 
+let cmp_zl a b = compare (List.map int_of_z a) (List.map int_of_z b)
+
+let next_value t =
+  let kind = next_int t in
+  let v = next_zlist t in
+  match kind with
+  | 0 -> VBool (match v with x :: _ -> int_of_z x <> 0 | [] -> false)
+  | 1 -> VInt (List.hd v)
+  | 2 -> VStr v
+  | _ -> VOther
+
+let out_config (c : config) =
+  let bs = List.sort (fun ((k1, s1), _) ((k2, s2), _) ->
+      let c = cmp_zl k1 k2 in if c <> 0 then c else cmp_zl s1 s2) c.c_binds in
+  out_list (fun ((km, sq), (a, m)) -> out_zlist km; out_zlist sq; out_zlist a; out_bool m) bs;
+  let vs = List.sort (fun (n1, _) (n2, _) -> cmp_zl n1 n2) c.c_vars in
+  out_list (fun (n, v) -> out_zlist n;
+             match v with
+             | VBool b -> out_int 0; out_int 1; out_bool b
+             | VInt z -> out_int 1; out_int 1; out_z z
+             | VStr s -> out_int 2; out_zlist s
+             | VOther -> out_int 3; out_int 0) vs
+
+let out_res f = function
+  | Ok a -> f a
+  | Panic site -> out_str "PANIC"; out_z site
+  | OutOfFuel -> out_str "OUTOFFUEL"
+
 let run_case (line : string) =
   let t = toks_of_line line in
   let op = next_tok t in
@@ -13,6 +41,20 @@ let run_case (line : string) =
    | "rt" -> let m = next_bool t in let s = next_zlist t in out_zlist (unescape (escape m s))
    | "cmeta" -> let s = next_zlist t in out_zlist (convert_meta s)
    | "dom" -> let s = next_zlist t in out_bool (List.for_all dom s)
+   | "parse" ->
+     let halt = next_bool t in let strict = next_bool t in
+     let app = next_zlist t in let term = next_zlist t in let mode = next_zlist t in
+     let vars = next_list (fun t -> let n = next_zlist t in let v = next_value t in (n, v)) t in
+     let files = next_list (fun t -> let n = next_zlist t in let k = next_int t in let c = next_zlist t in
+                             (n, (match k with 0 -> FData c | 1 -> FNotExist | _ -> FError))) t in
+     let src = next_zlist t in
+     let o = { o_halt = halt; o_strict = strict; o_app = app; o_term = term; o_mode = mode } in
+     out_res (fun ((cfg, errs), ret) ->
+         out_z ret;
+         out_list (fun (k, l) -> out_z k; let ki = int_of_z k in
+                    if ki = 10 || ki = 11 || ki = 12 then out_int 0 else out_z l) errs;
+         out_config cfg)
+       (parse files o { c_vars = vars; c_binds = [] } src)
    | "quote" -> let c = next_z t in out_zlist (quote c)
    | _ -> out_str ("UNKNOWN-OP " ^ op));
   flush_line ()
